@@ -46,6 +46,11 @@ type Unit struct {
 	wfDone map[string]bool
 	tinvDone map[string]bool
 	loopKeepSets [][]string
+	lemma bool
+	lemmaReveal *Block
+	side *lemmaSide
+	lemmaStep int
+	lemmaLast bool
 	sepDefs []string
 	casePanicBase int
 	siteN   map[token.Pos]int
